@@ -9,7 +9,7 @@ var Kinds = []string{
 	"arr-string", "arr-int64", "arr-number", "arr-datetime", "arr-refobj", "arr-inlineobj", "arr-refarr", "arr-any",
 	"object", "object-empty", "object-addl-true", "object-addl-string", "object-addl-refobj", "any",
 	"allOf-ref-inline", "allOf-inline-ref", "allOf-ref-ref", "allOf-inline-inline",
-	"oneOf-plain", "oneOf-disc", "oneOf-disc-map", "oneOf-disc-partialmap", "oneOf-disc-namemap",
+	"oneOf-plain", "oneOf-disc", "oneOf-disc-map", "oneOf-disc-partialmap", "oneOf-disc-namemap", "oneOf-plain-shared",
 }
 
 var Positions = []string{"query", "header", "path", "reqbody", "respbody", "resphdr", "prop", "item", "addl", "comp"}
@@ -114,6 +114,14 @@ func KindSchema(kind string) (M, map[string]M) {
 		aux["AuxA"], aux["AuxB"], aux["AuxC"] = a, b, c
 		disc := M{"propertyName": "kind", "mapping": M{"first": "#/components/schemas/AuxA", "second": "#/components/schemas/AuxB"}}
 		return M{"oneOf": L{Ref("schemas", "AuxA"), Ref("schemas", "AuxB"), Ref("schemas", "AuxC")}, "discriminator": disc}, aux
+	case "oneOf-plain-shared":
+		// no discriminator; the alternatives share property names, each has one
+		// required property of its own
+		a := Obj([]string{"a"}, M{"a": Prim("string", ""), "name": Prim("string", ""), "age": Prim("integer", "int32")})
+		b := Obj([]string{"b"}, M{"b": Prim("boolean", ""), "name": Prim("string", ""), "age": Prim("integer", "int32")})
+		c := Obj([]string{"c", "name"}, M{"c": Prim("integer", "int64"), "name": Prim("string", "")})
+		aux["AuxA"], aux["AuxB"], aux["AuxC"] = a, b, c
+		return M{"oneOf": L{Ref("schemas", "AuxA"), Ref("schemas", "AuxB"), Ref("schemas", "AuxC")}}, aux
 	case "oneOf-disc-namemap":
 		// explicit mapping whose keys are the schema names themselves, plus one more key
 		a := Obj([]string{"kind", "a"}, M{"kind": Prim("string", ""), "a": Prim("string", "")})
